@@ -5,7 +5,7 @@ from collections import Counter
 
 import numpy as np
 
-from .. import crystalfam, structures, tlc
+from .. import bestbasis, crystalfam, structures, tlc
 from ..common import MachineryError, Run, dump_ndjson, pmap, scratch
 from ..common import rng_pinned as rng_for
 
@@ -111,5 +111,7 @@ def run(tier):
         run.sample({k: r[k] for k in ("desc", "n", "tol", "cell_natoms", "cell_npbc", "proto", "source")})
     run.assume("source crystal's own unit cell = the primitive cell the generator started from, analysed at the same tolerance (0.1 A unperturbed, 0.5 A rattled)",
                "inputs are those of C02 (noise <= 0.02 A) that pass its precondition, plus monolayer supercells; pinned random parts")
+    # growth: the basis selection step of the prototype cell (BestBasis.tla), design model + binding; disagreements are MODEL-DRIFT
+    bestbasis.run(run, tier)
     run.cov["rule"] = "C02 crystal families (bulk, slab) with noise <= 0.02 and graphene/BN/MX2 monolayers under rotation/translation/permutation/seed; non-trivial = distinct descriptors"
     return run.finish()
